@@ -7,9 +7,12 @@ server records put / changed / deleted (+ `servers` event), allocations changed 
 groups put / changed / deleted (+ event), server-state events (up / down / frozen with instances),
 apps-blacklist event, `apps` re-evaluation event, clock ticks; `cycle` (what `run_loop` does per
 iteration: reschedule + check_placement_integrity), `restart` (fresh Master on the same store:
-load_model + init_schedule + first cycle) and `crash k` (the next cycle stops after k storage
-writes, then a restart).  Everything runs under an integer virtual clock (seconds; znode ctime /
-mtime are the same clock in ms).
+load_model + init_schedule + first cycle), `crash k` (the next cycle stops after k storage
+writes - the real write hook -, then a restart) and `offline [...]` (presence / instance changes
+that happen while NO master is running: the fail-over window; a new master starts afterwards).
+A master that dies on an unhandled exception (utils.exit_on_unhandled) is replaced by a new one.
+Everything runs under an integer virtual clock (seconds; znode ctime / mtime are the same clock in
+ms); `Application.global_order` is made strictly increasing in creation order (DESIGN.md 3.3).
 
 What is modelled in Lean and what is recorded (see props_registry.d/C09.json trusted_base):
   * MODELLED: Master.reschedule (schedule + two-pass publication + _unschedule_evicted + the saved
@@ -47,7 +50,7 @@ import fw
 
 NAME = 'master'
 DRIVER = 'Master'
-CASES = {'quick': 160, 'thorough': 4000, 'search': 600}
+CASES = {'quick': 400, 'thorough': 5000, 'search': 800}
 
 ROOT = 1000
 LEVELS = {'server': 0, 'cell': 1, 'pod': 2, 'rack': 3}
@@ -87,10 +90,6 @@ def aid_of(name):
     base, n = name.split('#')
     p, k = base.split('.')
     return int(p[1:]) * 10 ** 8 + int(k[1:]) * 10 ** 7 + int(n)
-
-
-def name_of_aid(aid):
-    return aname(aid // 10 ** 8, (aid // 10 ** 7) % 10, aid % 10 ** 7)
 
 
 # --------------------------------------------------------------------------------------------
@@ -297,7 +296,6 @@ class World(object):
         self.flags = {}                        # aid -> (blacklisted, unschedule) last told to the model
         self.apps_n = {}                       # case app index -> name
         self.last_sched = None
-        self.events_seq = 0
         # attribution
         self.site_removed = {}                 # (srv, app) -> call site that took app off srv
         self.site_placed = {}                  # (srv, app) -> call site that placed app on srv
@@ -961,6 +959,7 @@ def monitor_c11(w, when):
     run = w.run
     st = w.store.clone()
     before = records(st)
+    stale = _stale_now(w)
     presence = {s: st.nodes['/server.presence/' + s].ctime for s in st.children('/server.presence')}
     m2, err, stage = fresh_start(w, st, 'load', w.now + 1)
     if err:
@@ -1013,6 +1012,10 @@ def monitor_c11(w, when):
                 lims = {tuple(sorted(dict(x.affinity.limits).items())) for x in m2.cell.apps.values()
                         if x.affinity.name == a.affinity.name}
                 site = 'restore_placement[one affinity name, different limits]' if len(lims) > 1 else 'restore_placement'
+                if any(k[0] == srv for k in stale):
+                    # a record that already disagreed with the running master's model (C09, finding F6) is
+                    # restored first and takes the capacity / affinity head-room of a legitimate one
+                    site = 'restore_placement[stale record (C09 finding F6) under the server]'
                 _hit(run, 'healthy-record-not-restored', site, '%s: %s recorded on %s, model %s' % (when, app, srv, a.server))
             elif a.identity != d.get('identity') or a.placement_expiry != d.get('expires'):
                 _hit(run, 'restored-content-differs', 'restore_placement', '%s: %s on %s: record (%s,%s) model (%s,%s)' % (
@@ -1126,13 +1129,13 @@ def _deliver_scheduled(w):
     return False
 
 
-def _sync(w, tag):
+def _sync(w):
     w.sync_allocs()
     _sync_flags(w)
     w.run.op('sync', w.obs())
 
 
-def _start_master(w, first):
+def _start_master(w):
     """Fresh Master: load_model + init_schedule (+ the first cycle is a separate `cycle`)."""
     w.m, w.zk = w.new_master()
     w.site_placed = {}
@@ -1141,7 +1144,7 @@ def _start_master(w, first):
     w.run.op('newmaster %d %d' % (ROOT, LEVELS['cell']), None)
     w.run.op('tick %d' % w.now, None)
     w.m.load_model()
-    _sync(w, 'load')
+    _sync(w)
     w.m.init_schedule()
     w.last_sched = w.store.children('/scheduled')
 
@@ -1201,14 +1204,14 @@ def _restart(w, pid, when):
     w.enabled = False
     # records that disagreed with the dying master's model stay attributed to C09 for the new one
     w.carried_stale = _stale_now(w) | {k for k in w.carried_stale if k in records(w.store)}
-    _guarded(w, 'restart', lambda: _start_master(w, False))
+    _guarded(w, 'restart', lambda: _start_master(w))
     _guarded(w, 'first-cycle', lambda: _cycle(w, pid))
     _after_cycle(w, pid, when)
 
 
 def _run(case, pid, run, w):
     _setup(case, w)
-    _guarded(w, 'restart', lambda: _start_master(w, True))
+    _guarded(w, 'restart', lambda: _start_master(w))
     _guarded(w, 'first-cycle', lambda: _cycle(w, pid))
     _after_cycle(w, pid, 'first-cycle')
     died = 0
@@ -1351,17 +1354,15 @@ def _apply(case, pid, run, w, op):
         guarded('event:apps', lambda: w.m.process_events(w.store.children('/events')))
     else:
         return
-    _sync(w, k)
+    _sync(w)
 
 
 def _after_cycle(w, pid, when):
+    """C10's monitor runs inside `_guarded` (every write prefix of every operation)."""
     if pid == 'C09':
         monitor_c09(w, when)
     elif pid == 'C11':
         monitor_c11(w, when)
-    elif pid == 'C10':
-        # the comparison itself is C09's; C10 needs it only as the precondition of the next operation
-        pass
 
 
 def _crash(w, pid, k):
